@@ -4,6 +4,7 @@ Everything is built from the source text under <repo>/src/deep with the stdlib `
 code is imported or executed.
 """
 import ast
+import builtins
 import hashlib
 import os
 from typing import Dict, List, Optional, Set
@@ -417,7 +418,9 @@ class Program:
             r = self.resolve_name_in_module(m, e.id)
             if r is not None:
                 return r
-            return ("ext", "builtins." + e.id)
+            if hasattr(builtins, e.id):
+                return ("ext", "builtins." + e.id)
+            return None
         if isinstance(e, ast.Attribute):
             base = self.resolve_expr_static(m, e.value, cls, func)
             if base is None:
